@@ -14,7 +14,7 @@ from numpy.polynomial.legendre import leggauss
 from mc import common
 
 LEVEL = "exploration"
-FLOOR = {"CylinderSegment": 3e-5, "TriangularMesh": 1e-6, "Tetrahedron": 1e-6, "Cylinder": 1e-6}
+FLOOR = {"CylinderSegment": 3e-5, "TriangularMesh": 1e-6, "Tetrahedron": 1e-6, "Cylinder": 1e-6, "TallMesh": 1e-6, "WideMesh": 1e-6}
 POSE = ((0.3, -0.2, 0.5), (0.4, -0.3, 0.8))
 
 
@@ -39,6 +39,10 @@ def mk_sources():
         "PolyHexagon": magpy.current.Polyline(vertices=[(0.6, 0, 0.1), (0.3, 0.5, -0.1), (-0.3, 0.5, 0.2), (-0.6, 0, -0.2), (-0.3, -0.5, 0.1),
                                                          (0.3, -0.5, -0.1), (0.6, 0, 0.1)], current=-3.0, **kw),
     }
+    # bodies whose three extents are all different and permuted (x < y < z and z < x < y): a mix-up of axes shows
+    tv = lambda e: [(x * e[0] / 2, y * e[1] / 2, z * e[2] / 2) for x in (-1, 1) for y in (-1, 1) for z in (-1, 1)]  # noqa: E731
+    S["TallMesh"] = magpy.magnet.TriangularMesh(vertices=tv((0.7, 1.0, 3.0)), faces=cf, polarization=(0.3, 0.2, 1.0), **kw)
+    S["WideMesh"] = magpy.magnet.TriangularMesh(vertices=tv((1.4, 3.0, 0.8)), faces=cf, polarization=(0.3, 0.2, 1.0), **kw)
     a = magpy.magnet.Cuboid(dimension=(0.5, 0.4, 0.3), polarization=pol, position=(0.8, 0.1, -0.2))
     b = magpy.current.Circle(diameter=0.9, current=2.0, position=(-0.4, 0.3, 0.4))
     S["Collection"] = magpy.Collection(a, b, **kw)
@@ -56,7 +60,8 @@ GLOBAL_FRAME = ("Collection", "TwoSquares", "TwoMeshes")
 
 
 SIZE = {"Cuboid": 0.6, "Cylinder": 0.6, "CylinderSegment": 0.9, "Sphere": 0.55, "Tetrahedron": 0.9, "TriangularMesh": 0.6, "Dipole": 0.5,
-        "Circle": 0.65, "PolySquare": 0.7, "PolyHexagon": 0.6, "Collection": 1.0, "TwoSquares": 0.7, "TwoMeshes": 1.0}
+        "Circle": 0.65, "PolySquare": 0.7, "PolyHexagon": 0.6, "Collection": 1.0, "TwoSquares": 0.7, "TwoMeshes": 1.0,
+        "TallMesh": 0.5, "WideMesh": 0.5}
 
 
 def to_global(p):
@@ -144,6 +149,44 @@ def flux_case(c):
 
 
 # ------------------------------------------------------------------ loops
+def inside_local(src, P):
+    """exact inside predicate of the body of source `src` in its LOCAL frame (None for sources without a body)"""
+    from mc.oracles import geometry as geo
+
+    box = {"Cuboid": (0.5, 0.6, 0.4), "TriangularMesh": (0.5, 0.6, 0.4), "TallMesh": (0.35, 0.5, 1.5), "WideMesh": (0.7, 1.5, 0.4)}
+    if src in box:
+        return np.all(np.abs(P) < np.array(box[src]), axis=1)
+    par = {"Cylinder": {"dimension": (1.0, 1.2)}, "CylinderSegment": {"dimension": (0.3, 0.9, 1.1, -30, 200)}, "Sphere": {"diameter": 1.1},
+           "Tetrahedron": {"vertices": [(-0.5, -0.4, -0.3), (0.9, -0.3, -0.4), (-0.2, 0.8, -0.3), (0, 0, 0.9)]}}.get(src)
+    if par is None:
+        return None
+    return geo.classify(src, par, P) == 1
+
+
+def surface_crossings(src, curve, t0, t1, samples=4000):
+    """parameters in (t0, t1) where the curve t -> global point crosses the surface of the body (sign changes of the
+    inside predicate located by bisection); the integrand jumps there, so they become panel edges"""
+    from scipy.spatial.transform import Rotation as R
+
+    Rm = R.from_rotvec(POSE[1])
+    to_local = lambda P: Rm.inv().apply(np.atleast_2d(P) - np.array(POSE[0]))  # noqa: E731
+    ts = np.linspace(t0, t1, samples + 1)
+    ins = inside_local(src, to_local(curve(ts)))
+    if ins is None:
+        return []
+    out = []
+    for i in np.where(ins[1:] != ins[:-1])[0]:
+        a, b, fa = ts[i], ts[i + 1], ins[i]
+        for _ in range(60):
+            m = 0.5 * (a + b)
+            if inside_local(src, to_local(curve(np.array([m]))))[0] == fa:
+                a = m
+            else:
+                b = m
+        out.append(0.5 * (a + b))
+    return out
+
+
 def loop_points(c, S):
     """returns list of smooth pieces [(P(n,3), T(n,3) tangents*dt weights)], expected linked current"""
     size = SIZE[c["src"]]
@@ -159,6 +202,9 @@ def loop_points(c, S):
         e2 = np.cross(n, e1)
         out = []
         edges = np.linspace(0, 2 * np.pi * turns, pieces * turns * c["panels"] + 1)
+        if c["src"] not in GLOBAL_FRAME:
+            curve = lambda t: np.array(center) + radius * (np.outer(np.cos(t), e1) + np.outer(np.sin(t), e2))  # noqa: E731
+            edges = np.array(sorted(set(edges.tolist()) | set(surface_crossings(c["src"], curve, 0.0, 2 * np.pi * turns))))
         for a, b in zip(edges[:-1], edges[1:]):
             t = (a + b) / 2 + (b - a) / 2 * X
             P = np.array(center) + radius * (np.outer(np.cos(t), e1) + np.outer(np.sin(t), e2))
@@ -170,6 +216,9 @@ def loop_points(c, S):
         out = []
         for a, b in zip(verts, np.roll(verts, -1, axis=0)):
             edges = np.linspace(0, 1, c["panels"] + 1)
+            if c["src"] not in GLOBAL_FRAME:
+                curve = lambda t, a=a, b=b: a + np.outer(t, b - a)  # noqa: E731
+                edges = np.array(sorted(set(edges.tolist()) | set(surface_crossings(c["src"], curve, 0.0, 1.0))))
             for u0, u1 in zip(edges[:-1], edges[1:]):
                 t = (u0 + u1) / 2 + (u1 - u0) / 2 * X
                 P = a + np.outer(t, b - a)
@@ -233,7 +282,7 @@ def circ_case(c):
     conv = abs(vals[-1] - vals[-2])
     floor = FLOOR.get(c["src"], 1e-9)
     bound = 10 * conv + floor * Amag
-    limit = 1e-2 * Amag if c["loop"] in ("through",) else 1e-6 * Amag
+    limit = 1e-6 * Amag   # loops are split where they cross the body surface: every piece is smooth
     if 10 * conv > limit:
         return ("inconclusive", f"convergence {conv / Amag:.3g}", (circ, expected, Amag))
     if abs(circ - expected) > bound:
@@ -252,8 +301,15 @@ def work(c):
 
 def enumerate_cases(tier):
     cases = []
-    centers = {"centre": (0.02, 0.01, -0.015), "on-surface": (0.9, 0.1, 0.05), "outside": (2.5, 1.3, 0.8)}
+    centers0 = {"centre": (0.02, 0.01, -0.015), "on-surface": (0.9, 0.1, 0.05), "outside": (2.5, 1.3, 0.8)}
     for src in SIZE:
+        centers = dict(centers0)
+        if src == "TallMesh":    # x-face at 0.35: centre on it, low / middle / high along the long axis; and across the top face
+            centers = {"centre": (0.02, 0.01, -0.015), "on-surface": (0.7, 0.1, 0.05), "on-surface-high": (0.7, 0.1, 2.0),
+                       "on-surface-low": (0.7, -0.2, -2.0), "on-surface-top": (0.1, 0.2, 3.0), "outside": (2.5, 1.3, 4.8)}
+        if src == "WideMesh":
+            centers = {"centre": (0.02, 0.01, -0.015), "on-surface": (1.4, 0.1, 0.05), "on-surface-high": (0.3, 3.0, 0.1),
+                       "on-surface-low": (-1.4, -2.0, 0.1), "on-surface-top": (0.4, 1.9, 0.8), "outside": (3.5, 4.3, 2.8)}
         for cname, cen in centers.items():
             for size in ([0.05, 0.6, 3.0, 100.0] if tier == "thorough" else [0.05, 0.6, 3.0]):
                 if cname == "outside" and size >= 3.0:
@@ -262,7 +318,7 @@ def enumerate_cases(tier):
                     # does the test surface cut the body's boundary?  centre: 0.05 inside, 0.6 cuts, >=3 encloses
                     if cname == "centre":
                         cuts = size == 0.6
-                    elif cname == "on-surface":
+                    elif cname.startswith("on-surface"):
                         cuts = size <= 3.0
                     else:
                         cuts = False
